@@ -169,6 +169,17 @@ def gen_inputs(ctx, tier):
         inputs.append(("escapes", "(display #\\%s)" % nm)); inputs.append(("escapes", "(list #\\%s#\\%s)" % (nm, nm)))
     for e in "abtnrfv0123456789 \\\"'?exuUN\n":
         inputs.append(("escapes", '(display "a\\%sb")' % e))
+    # forms that are REJECTED as a whole (a macro definition where only an expression or an internal definition may stand) and whose rejected part
+    # names what the sanity form uses: a rejected form has no effect, so the sanity form still gives 41.  (Were such a definition accepted, as R7RS
+    # allows inside bodies, it would be local to that body - the sanity form is untouched either way.)
+    for nm in ("zq-id", "zq-f", "if", "define", "zq-v"):
+        M = "(define-syntax %s (syntax-rules () ((%s a ...) 'hijacked) ((%s . a) 'hijacked)))" % (nm, nm, nm) if nm != "zq-v" else "(define-syntax zq-v (syntax-rules () ((zq-v) 'hijacked)))"
+        M2 = "(define-syntax %s (syntax-rules () ((%s a ...) 'hijacked)))" % (nm, nm)
+        for t in ["(define (zz-g) %s 1)", "(define (zz-g) 1 %s)", "(define (zz-g a . r) %s)", "(define (zz-g) (define zz-a 1) %s zz-a)", "(lambda () %s 1)", "((lambda () %s 1))",
+                  "(let () %s 1)", "(let ((zz-a 1)) %s zz-a)", "(let* ((zz-a 1)) 2 %s)", "(if %s 1 2)", "(if #t %s 2)", "(list %s)", "(list 1 %s 2)", "(set! zq-v %s)", "(define zz-x %s)",
+                  "(cond (#t %s))", "(when #t %s)", "(case 1 ((1) %s))", "(and 1 %s)", "(or #f %s)", "(zq-id %s)", "(zq-f %s)", "(vector %s)", "(apply list %s '())",
+                  "(define (zz-g) (if #t %s 1))", "(define (zz-g) (list %s))", "(define zz-x (lambda () %s 1))", "(let ((zz-a %s)) 1)", "((lambda (zz-a) 1) %s)"]:
+            inputs.append(("rejected_with_effects", t % M)); inputs.append(("rejected_with_effects", t % M2))
     nh = 3000 if tier == "quick" else core.share(40000)
     for _ in range(nh):
         inputs.append(("hostile_chars", gen_text.hostile(rng, vocab)))
